@@ -45,7 +45,14 @@ def slice_of(obj):
     return "X"
 
 
-def build_verdicts(name, rows, nshards=8):
+def lib_rs_nostd(ids):
+    s = "#![no_std]\n#![allow(unused, non_snake_case, non_camel_case_types, dead_code)]\nextern crate alloc;\n"
+    for k in ids:
+        s += '#[path = "d/%s.rs"] pub mod %s;\n' % (k, k)
+    return s
+
+
+def build_verdicts(name, rows, nshards=8, nostd=False):
     """rows: {id: obj}. Build every declaration against /repo; returns {id: ("accepted"|"rejected", messages)}."""
     groups = {}
     for k, obj in rows.items():
@@ -56,8 +63,11 @@ def build_verdicts(name, rows, nshards=8):
         deps = sorted(set(d for f in feats for d in FEAT_DEPS[f]))
         n = max(1, min(nshards, len(ids) // 40))
         for si, part in enumerate(shard(ids, n)):
-            files = {k: render_src(rows[k]["src"]) for k in part}
-            crates.append(Crate("%s_g%d_s%d" % (name, gi, si), list(feats), deps, files, main_rs))
+            files = {k: render_src(rows[k]["src"], nostd=nostd) for k in part}
+            if nostd:
+                crates.append(Crate("%s_g%d_s%d" % (name, gi, si), list(feats), deps, files, lib_rs_nostd, lib=True, no_default=True))
+            else:
+                crates.append(Crate("%s_g%d_s%d" % (name, gi, si), list(feats), deps, files, main_rs))
     # one cargo invocation per feature set: packages built together get their dependency features unified
     by_feats = {}
     for c in crates:
@@ -193,4 +203,65 @@ def check_C08():
            "exhaustive": T == "thorough"}
     ev = {"tier": T, "seed": seed(), "level": "model_checking", "coverage": cov,
           "assumptions": ["rustc/cargo as judges of compile verdicts; error attribution by the root of the diagnostic's expansion chain"]}
+    return verdict.finish(ev, t.s())
+
+
+def check_C15():
+    """no_std: every accepted non-string declaration also compiles in a #![no_std] crate built against
+    nutype with default features off (+serde, +arbitrary)."""
+    t = Timer()
+    T = tier()
+    rng = random.Random(seed())
+    verdict = Verdict("C15")
+    r, rows = mc_decl_rows()
+    sel = {}
+    for k, obj in rows.items():
+        src = obj["src"]
+        if src["fam"] == "string" or src["shape"] != "tuple" or src["outer"] or src["fieldvis"]:
+            continue
+        if obj["class"] != "accept" or obj.get("capture"):
+            continue      # C15 quantifies over ACCEPTED declarations; name capture is C08's finding
+        if any(b["bk"] in ("new_unchecked", "bogus") for b in src["blocks"]):
+            continue
+        if any(t_ == "JsonSchema" for b in src["blocks"] for t_ in b["der"]):
+            continue
+        o = json.loads(json.dumps(obj))
+        o["src"]["feats"] = ["arbitrary", "serde"]
+        sel[k] = o
+    ids = sorted(sel)
+    if T == "quick" and len(ids) > 900:
+        keep = [k for k in ids if sel[k]["src"]["tparams"] or any(b["bk"] == "const_fn" for b in sel[k]["src"]["blocks"])]
+        rest = [k for k in ids if k not in set(keep)]
+        ids = sorted(keep + rng.sample(rest, 900 - min(900, len(keep))))
+    sel = {k: sel[k] for k in ids}
+    verdicts = build_verdicts("c15", sel, nostd=True)
+    tdir = ensure_dir(os.path.join(WORK, "trace", "c15"))
+    tp, dp = os.path.join(tdir, "trace.ndjson"), os.path.join(tdir, "decls.json")
+    with open(tp, "w") as f:
+        for k in ids:
+            f.write(json.dumps({"d": k, "verdict": verdicts[k][0], "capture": bool(sel[k].get("capture")), "ran_tests": False, "tests": []}) + "\n")
+    with open(dp, "w") as f:
+        json.dump({k: sel[k]["src"] for k in ids}, f)
+    summary, bad, drift, tr = validate_trace("Trace_Decl", "Trace_Decl.cfg", "trace_c15", tp, dp)
+    for (l, _i, obj) in bad:
+        k = ids[l - 1]
+        src = sel[k]["src"]
+        msgs = verdicts[k][1]
+        std_leak = any(("std" in m and ("E0433" in m or "E0432" in m)) or "cannot find macro" in m or "E0425" in m for m in msgs)
+        tags = tags_of(sel[k])
+        rec = {"property": "C15", "decl": k, "family": src["fam"], "class": obj["class"], "verdict": obj["verdict"], "tag": tags[0] if tags else "",
+               "compiler_messages": msgs, "names_std": std_leak, "declaration": decl_only(src),
+               "summary": "%s does not compile in a #![no_std] crate (%s) :: %s" % (k, "; ".join(m[:100] for m in msgs[:1]), decl_only(src).strip().replace("\n", " ")[:200])}
+        verdict.violation(rec)
+    acc = sum(1 for k in ids if verdicts[k][0] == "accepted")
+    cov = {"states": r.distinct + tr.distinct, "transitions": r.generated + tr.generated,
+           "traces_validated_against_impl": summary["events"], "declarations_built_no_std": len(ids), "accepted": acc,
+           "evaluations": len(ids), "distinct_nontrivial": len(ids),
+           "rule": "every integer/float/other declaration that the reference predicate classifies as well-formed (slices T and K of MC_Decl: derive sets x validation kinds x "
+                   "const_fn/default/custom error/generics) is built inside a generated #![no_std] library crate against nutype with default-features = false (+serde, +arbitrary); "
+                   "TLC validates the verdicts against Class. Level: configuration enumeration with rustc as judge; the specification contributes the space and the expected verdict.",
+           "samples": [{"declaration": decl_only(sel[ids[0]]["src"]).strip().splitlines(), "verdict": verdicts[ids[0]][0]}],
+           "exhaustive": T == "thorough"}
+    ev = {"tier": T, "seed": seed(), "level": "model_checking", "coverage": cov,
+          "assumptions": ["host-target #![no_std] library crate: a `::std::` path or a std-prelude macro fails (E0433 / cannot find macro); std-only inherent methods would not"]}
     return verdict.finish(ev, t.s())
